@@ -39,7 +39,7 @@ PVSS_INV = ["Total", "RefinesVerify", "AcceptImpliesUntouched", "FilterExact", "
 
 
 def pvss_consts(shape, nmin, nmax, tamper=1, rec="pick", fixed=True):
-    return {"Shape": shape, "NMin": nmin, "NMax": nmax, "MaxTamper": tamper, "RecMode": rec, "CheckDecIndex": fixed,
+    return {"Shape": shape, "NMin": nmin, "NMax": nmax, "MaxTamper": tamper, "RecMode": rec, "CheckDecIndex": fixed, "HashDecBase": True,
             "Rels": ["indep", "HeqG", "HnegG", "H2G", "Hid", "Gid"]}
 
 
@@ -178,9 +178,9 @@ def c15(ctx):
 SIG_INV = ["Total", "AcceptIffClean", "OtherBranchesIrrelevant", "FalsLocal", "FaultNeverAccepted", "ItemCount", "CommitFirst", "Shape"]
 
 
-def sig_consts(mode, br, rep, term, ns, nb, terms, wraps=("min", "full"), faults=(0,), names=(20,), runs=(1,)):
+def sig_consts(mode, br, rep, term, ns, nb, terms, wraps=("min", "full"), faults=(0,), names=(20,), runs=(1,), nests=(0,)):
     return {"MaxBr": br, "MaxRep": rep, "MaxTerm": term, "NS": ns, "NB": nb, "MaxTerms": terms, "Mode": mode, "Wraps": list(wraps),
-            "Faults": list(faults), "NameLens": list(names), "Runs": list(runs)}
+            "Faults": list(faults), "NameLens": list(names), "Runs": list(runs), "Nests": list(nests)}
 
 
 SIGTRACE_CFG = """SPECIFICATION TraceSpec
@@ -196,6 +196,7 @@ CONSTANTS
   Faults = {0}
   NameLens = {20}
   Runs = {1}
+  Nests = {0}
 CONSTRAINT Mark
 POSTCONDITION TraceAccepted
 CHECK_DEADLOCK FALSE
@@ -234,6 +235,12 @@ def c14(ctx):
     # proof, a second Prover of the same Predicate value for another branch; hash and deniable mode
     jobs.append(lambda: gen(ctx, "Sigma", sig_consts("sat", 2, 2, 2, 2, 2, 3 if q else 4, both, runs=(2,) if q else (2, 4)), "C14_reuse",
                             invariants=SIG_INV + ["Emit"], workers=W))
+    # an Or of 2 or 3 branches NESTED in the top-level Or (the last branches), chosen branch outside or inside it:
+    # up to 4 branches of one single-term Rep over 2 variables, every choice, every falsification; and every tampering
+    jobs.append(lambda: gen(ctx, "Sigma", sig_consts("sat", 4, 1, 1, 2, 1, 4, mini, nests=(2, 3), runs=(1, 2)), "C14_nest",
+                            invariants=SIG_INV + ["Emit"], workers=W))
+    jobs.append(lambda: gen(ctx, "Sigma", sig_consts("mut", 4, 1, 1, 2, 1, 4, mini, nests=(3,)), "C14_nest_mut",
+                            invariants=SIG_INV + ["Emit"], workers=W))
     if not q:   # trivial Or / And nodes kept ("full" wrapping) on the smaller universes
         jobs += [ex("sat", 5, both, "C14_sat_wraps"), ex("mut", 4, both, "C14_mut_wraps")]
     outs = par(ctx, jobs)
@@ -246,7 +253,9 @@ def c14(ctx):
     ctx.run_vh("sigma", ["-in", outs[4], "-max", 1500 if q else 8000, "-deniable", 1], binary=b)
     ctx.run_vh("sigma", ["-in", outs[5], "-deniable", 0], binary=b)
     ctx.run_vh("sigma", ["-in", outs[6], "-max", 1500 if q else 12000, "-deniable", 2], binary=b)
-    for bh in outs[7:]:
+    ctx.run_vh("sigma", ["-in", outs[7], "-deniable", 3], binary=b)
+    ctx.run_vh("sigma", ["-in", outs[8], "-max", 1500 if q else 8000, "-deniable", 4], binary=b)
+    for bh in outs[9:]:
         ctx.run_vh("sigma", ["-in", bh, "-max", 12000, "-deniable", 3], binary=b)
     if ctx.cov["skipped"].get("deniable-session-timeout"):
         raise Broken("%d deniable clique sessions did not terminate within 5 minutes" % ctx.cov["skipped"]["deniable-session-timeout"])
